@@ -76,3 +76,111 @@ fn k_sha1_blocks_input() {
     else { assert!(b.block[i - 128] == src, "remainder buffered in order"); }
     kani::cover!(true, "reachable");
 }
+
+// ---------------- FIPS 180-4 SHA-1 compression function, textbook form (independent of the 4-lane code) ----------------
+fn spec_f(t: usize, b: u32, c: u32, d: u32) -> u32 {
+    if t < 20 { (b & c) | (!b & d) } else if t < 40 { b ^ c ^ d } else if t < 60 { (b & c) | (b & d) | (c & d) } else { b ^ c ^ d }
+}
+fn spec_k(t: usize) -> u32 { if t < 20 { 0x5A827999 } else if t < 40 { 0x6ED9EBA1 } else if t < 60 { 0x8F1BBCDC } else { 0xCA62C1D6 } }
+/// rounds t0..t0+4 on (a,b,c,d,e) with schedule words w
+fn spec_rounds4(s: [u32; 5], w: [u32; 4], t0: usize) -> [u32; 5] {
+    let [mut a, mut b, mut c, mut d, mut e] = s;
+    let mut i = 0;
+    while i < 4 {
+        let t = t0 + i;
+        let tmp = a.rotate_left(5).wrapping_add(spec_f(t, b, c, d)).wrapping_add(e).wrapping_add(spec_k(t)).wrapping_add(w[i]);
+        e = d; d = c; c = b.rotate_left(30); b = a; a = tmp;
+        i += 1;
+    }
+    [a, b, c, d, e]
+}
+fn spec_compress(h: [u32; 5], block: &[u8; 64]) -> [u32; 5] {
+    let mut w = [0u32; 80];
+    let mut t = 0;
+    while t < 16 { w[t] = u32::from_be_bytes([block[4 * t], block[4 * t + 1], block[4 * t + 2], block[4 * t + 3]]); t += 1; }
+    while t < 80 { w[t] = (w[t - 3] ^ w[t - 8] ^ w[t - 14] ^ w[t - 16]).rotate_left(1); t += 1; }
+    let mut s = h;
+    let mut g = 0;
+    while g < 20 { s = spec_rounds4(s, [w[4 * g], w[4 * g + 1], w[4 * g + 2], w[4 * g + 3]], 4 * g); g += 1; }
+    [h[0].wrapping_add(s[0]), h[1].wrapping_add(s[1]), h[2].wrapping_add(s[2]), h[3].wrapping_add(s[3]), h[4].wrapping_add(s[4])]
+}
+
+//@unit props=C10,C12 label=P tier=quick fn=sha1::{sha1rnds4c,sha1rnds4p,sha1rnds4m,sha1_digest_round_x4,sha1_first_half}
+//@desc one 4-round group of the 4-lane code equals four textbook SHA-1 rounds (Ch/Parity/Maj/Parity with K0..K3) on (a,b,c,d,e): with work = schedule words and the previous e folded into lane 0, the result is the new (a,b,c,d) and the new e is rol30 of the old a - for all states, words and all four phases
+#[kani::proof]
+fn k_sha1_round_group() {
+    let s: [u32; 5] = kani::any();
+    let w: [u32; 4] = kani::any();
+    let phase: i8 = kani::any();
+    kani::assume(phase >= 0 && phase <= 3);
+    let abcd = u32x4(s[0], s[1], s[2], s[3]);
+    // the caller folds e into lane 0 (sha1_first_add) and the round function adds K
+    let work = sha1_first_add(s[4], u32x4(w[0], w[1], w[2], w[3]));
+    let r = sha1_digest_round_x4(abcd, work, phase);
+    let want = spec_rounds4(s, w, 20 * phase as usize);
+    assert!(r.0 == want[0] && r.1 == want[1] && r.2 == want[2] && r.3 == want[3], "new a,b,c,d after four textbook rounds");
+    assert!(sha1_first(abcd).rotate_left(30) == want[4], "new e is rol30 of the old a (what sha1_first_half feeds into the next group)");
+    kani::cover!(true, "reachable");
+}
+
+//@unit props=C10,C12 label=P tier=quick fn=sha1::{sha1msg1,sha1msg2}
+//@desc the message-schedule pair computes the next four schedule words: W[t] = rol1(W[t-3] ^ W[t-8] ^ W[t-14] ^ W[t-16]) for t = 16..19 given W[0..16], for all words
+#[kani::proof]
+fn k_sha1_schedule_group() {
+    let w: [u32; 16] = kani::any();
+    let v0 = u32x4(w[0], w[1], w[2], w[3]);
+    let v1 = u32x4(w[4], w[5], w[6], w[7]);
+    let v2 = u32x4(w[8], w[9], w[10], w[11]);
+    let v3 = u32x4(w[12], w[13], w[14], w[15]);
+    let r = sha1msg2(sha1msg1(v0, v1) ^ v2, v3);
+    let w16 = (w[13] ^ w[8] ^ w[2] ^ w[0]).rotate_left(1);
+    let w17 = (w[14] ^ w[9] ^ w[3] ^ w[1]).rotate_left(1);
+    let w18 = (w[15] ^ w[10] ^ w[4] ^ w[2]).rotate_left(1);
+    let w19 = (w16 ^ w[11] ^ w[5] ^ w[3]).rotate_left(1);
+    assert!(r.0 == w16 && r.1 == w17 && r.2 == w18 && r.3 == w19, "next four schedule words");
+    kani::cover!(true, "reachable");
+}
+
+//@unit props=C10,C12 label=P tier=parked fn=sha1::Sha1State::process
+//@desc the compression function equals the FIPS 180-4 textbook compression (80 rounds, big-endian words, standard schedule) for every state and every 64-byte block
+#[kani::proof]
+#[kani::unwind(82)]
+fn k_sha1_process_equals_fips() {
+    let h: [u32; 5] = kani::any();
+    let block: [u8; 64] = kani::any();
+    let mut st = Sha1State { state: h };
+    st.process(&block);
+    let want = spec_compress(h, &block);
+    assert!(st.state == want, "SHA-1 compression function");
+    kani::cover!(true, "reachable");
+}
+
+//@unit props=C10,C12 label=P tier=thorough fn=sha1::Sha1State::process
+//@desc the compression function equals the FIPS 180-4 textbook compression (80 rounds, big-endian words, standard schedule) for every state and every 64-byte block
+#[kani::proof]
+#[kani::unwind(82)]
+#[kani::solver(kissat)]
+fn k_sha1_process_equals_fips_kissat() {
+    let h: [u32; 5] = kani::any();
+    let block: [u8; 64] = kani::any();
+    let mut st = Sha1State { state: h };
+    st.process(&block);
+    let want = spec_compress(h, &block);
+    assert!(st.state == want, "SHA-1 compression function");
+    kani::cover!(true, "reachable");
+}
+
+//@unit props=C10,C12 label=P tier=thorough fn=sha1::Sha1State::process
+//@desc the compression function equals the FIPS 180-4 textbook compression (80 rounds, big-endian words, standard schedule) for every state and every 64-byte block
+#[kani::proof]
+#[kani::unwind(82)]
+#[kani::solver(z3)]
+fn k_sha1_process_equals_fips_z3() {
+    let h: [u32; 5] = kani::any();
+    let block: [u8; 64] = kani::any();
+    let mut st = Sha1State { state: h };
+    st.process(&block);
+    let want = spec_compress(h, &block);
+    assert!(st.state == want, "SHA-1 compression function");
+    kani::cover!(true, "reachable");
+}
